@@ -35,7 +35,7 @@ CHECKS = {
   text="Coq theorems (C19/Props.v), generic in the loader: for every well-formed statement list, every command-line environment and every file "
        "dictionary each loaded option holds the file's value if the file has the key and the command-line value otherwise (all options at once, "
        "hence pairs); untouched attributes keep their value; derived settings follow the effective values; every faulty file (missing when "
-       "requested, unreadable, invalid syntax, non-dictionary, ill-typed value) gives exactly one message, the command-line environment and no exception. "
+       "requested, unreadable, invalid syntax, nested too deeply for the reader, non-dictionary, ill-typed value) gives exactly one message, the command-line environment and no exception. "
        "The loader statements, the try/except structure and the option table are regenerated from the source on every run and wf is re-proved; "
        "effective attributes, 7 observable effects and the validator's accept/reject matrix are compared with the implementation.",
   note="Trusted: Coq kernel, vm_compute, translator (argparse object + ast, fail closed), differential harness. Values are opaque to the model. "
